@@ -3,6 +3,9 @@
 the original defect) to /repo, run the checks of the property it breaks, require a VIOLATION that is not a known finding,
 and always restore /repo.  Writes mutants/RESULTS.json.  usage: run_mutants.py [filter]"""
 import json, os, re, subprocess, sys, time
+REPO = os.environ.get('VERIF_REPO', '/repo')
+if REPO != '/repo':
+    os.environ.setdefault('VERIF_EVIDENCE', '/tmp/verif-scratch-evidence')   # a scratch worktree can stand in for /repo (the checks honour VERIF_REPO too)
 V = '/verif'
 flt = sys.argv[1] if len(sys.argv) > 1 else ''
 known = json.load(open(V + '/known_findings.json'))
@@ -22,11 +25,11 @@ EXTRA = {'C02-B': ['C03', 'C04'], 'C03-B': ['C02', 'C04'], 'C04-A': ['C02'], 'C0
 results = {}
 if os.path.exists(V + '/mutants/RESULTS.json'):
     results = json.load(open(V + '/mutants/RESULTS.json'))
-assert subprocess.run(['git', '-C', '/repo', 'status', '--porcelain', '--untracked-files=no'], capture_output=True, text=True).stdout.strip() == '', '/repo has local changes'
+assert subprocess.run(['git', '-C', REPO, 'status', '--porcelain', '--untracked-files=no'], capture_output=True, text=True).stdout.strip() == '', '/repo has local changes'
 for name, patch, reverse, props in cases:
     if flt and flt not in name:
         continue
-    cmd = ['git', '-C', '/repo', 'apply'] + (['-R'] if reverse else []) + [patch]
+    cmd = ['git', '-C', REPO, 'apply'] + (['-R'] if reverse else []) + [patch]
     a = subprocess.run(cmd, capture_output=True, text=True)
     if a.returncode != 0:
         results[name] = {'applied': False, 'error': a.stderr[-300:]}
@@ -44,7 +47,7 @@ for name, patch, reverse, props in cases:
         results[name] = r
         print(name, 'detected by', r['detected_by'], '' if r['detected'] else '   <<<<<< MISSED by ' + props[0])
     finally:
-        subprocess.run(['git', '-C', '/repo', 'checkout', '--', '.'], check=True)
+        subprocess.run(['git', '-C', REPO, 'checkout', '--', '.'], check=True)
         json.dump(results, open(V + '/mutants/RESULTS.json', 'w'), indent=1, sort_keys=True)
 # restore evidence for the unchanged tree
 print('done; remember to re-run the checks on the unchanged tree to rewrite evidence')
